@@ -5,6 +5,8 @@ interpreter does what those layouts assume: which exit state each control instru
 (instruction pointer, frame depth)."""
 from vlib.rules import *
 from units.handlers import *
+from vlib.extract import find_block_after
+from vlib.pattern import Pat
 
 CTRL_SPEC = r"""
 pub uninterp spec fn parses_u8(s: &VString) -> bool;
@@ -120,3 +122,195 @@ U_CTRL = VUnit("c01_control", ["C01", "C09", "C15"], "control-flow handlers: the
 U_CTRL.assumes = ["the condition operand is taken as it is on the stack (no heap-pointer view): that the compiler never leaves a pointer there is not proved",
                   "Stack::register_variable_local is an abstract callee", "str::parse as an assumed contract (num_of / parses_*)"]
 UNITS = [U_CTRL]
+
+
+# =====================================================================================================================
+# Function::run: what the interpreter loop does with the exit state a handler signalled (fragment: from the statement after
+# `let ret = context.poll();` to the end of the loop body)
+FUNC = "bytecode/src/function.rs"
+
+STEP_SPEC = r"""
+global size_of usize == 8;          // 64-bit target
+#[verifier::external_body] pub fn wrap_usize(x: isize) -> (r: usize) ensures x >= 0 ==> r as int == x as int, x < 0 ==> r as int == x as int + 0x1_0000_0000_0000_0000 { x as usize }
+pub enum ReturnValue { FFIError(VString), NoValue, Value(Primitive) }
+impl ReturnValue {
+    pub fn get(self) -> (r: Option<Primitive>) ensures r == (match self { ReturnValue::Value(p) => Some(p), _ => None::<Primitive> }) {
+        if let ReturnValue::Value(primitive) = self { Some(primitive) } else { None }
+    }
+}
+#[verifier::external_body] pub fn clone_rv(r: &ReturnValue) -> (c: ReturnValue) ensures c == *r { unimplemented!() }
+// the callback that performs a jump request (call of another function / module / library): abstract
+#[verifier::external_body] pub struct JumpCb { x: usize }
+pub uninterp spec fn cb_result(cb: &JumpCb, r: &JumpRequest) -> Result<ReturnValue, VErr>;
+#[verifier::external_body] pub fn jump_callback_call(cb: &JumpCb, r: &JumpRequest) -> (res: Result<ReturnValue, VErr>) ensures res == cb_result(cb, r) { unimplemented!() }
+#[verifier::external_body] pub fn scope_label(t: &SpecialScope) -> (r: VString) { unimplemented!() }      // SpecialScope::identity_str
+// current_frame.borrow_mut().pop_until_function(): closes the frames of the returning function (stack.rs; abstract here)
+pub uninterp spec fn until_function(l: Seq<VString>) -> Seq<VString>;
+#[verifier::external_body] pub fn pop_until_function(ctx: &mut Ctx)
+    ensures frame_labels(&final(ctx).call_stack) == until_function(frame_labels(&old(ctx).call_stack)), final(ctx).stack == old(ctx).stack, final(ctx).exit_state == old(ctx).exit_state { unimplemented!() }
+// the notification bridge (map / filter callbacks): abstract, may run further functions
+#[verifier::external_body] pub fn run_bridge(ctx: &mut Ctx, b: &BridgeV, cb: &JumpCb) -> (r: Result<(), VErr>)
+    ensures frame_labels(&final(ctx).call_stack) == frame_labels(&old(ctx).call_stack), final(ctx).exit_state == old(ctx).exit_state { unimplemented!() }
+pub enum Step { Returned(ReturnValue), Next(usize) }
+// `(instruction_ptr as isize + offset) as usize` in the dev profile: the sum is overflow-checked, the cast back wraps
+pub open spec fn goto_target(ptr: usize, off: isize) -> int { ptr as int + off as int }
+impl Ctx {
+    //@ OBL CTX.clear_signal
+    pub fn clear_signal(&mut self) ensures final(self).exit_state == Exit::NoExit, final(self).stack == old(self).stack, rest(final(self)) == rest(old(self)) { CLEAR_SIGNAL }
+}
+"""
+
+
+def build_step(repo):
+    src = Source(repo)
+    log = []
+    names = ["push"]
+    ctx = ctx_impl(src, log, names)
+    frun = src.fn(FUNC, "run", "impl Function")
+    body = frun["body"]
+    try:
+        _, o, c = find_block_after(body, "while instruction_ptr < self . instructions . len ( )")
+    except Exception as e:
+        raise Undecided(f"Function::run: interpreter loop not found: {e}")
+    loop = body[o + 1:c]
+    p = Pat("let ret : & InstructionExitState = context . poll ( ) ;")
+    at = None
+    for i in range(len(loop)):
+        r = p.match_at(loop, i)
+        if r:
+            at = r[0]; break
+    if at is None:
+        raise Undecided("Function::run: `let ret: &InstructionExitState = context.poll();` not found in the loop")
+    frag = loop[at:]
+    fcs = src.fn(CTXF, "clear_signal", "impl < 'a > Ctx < 'a >")
+    cs = translate(fcs["body"], CTX_RULES + [Rule("R1", "InstructionExitState :: $v", "Exit :: $v", why="enum renamed in the model")], log, "Ctx::clear_signal")
+    fpoll = src.fn(CTXF, "poll", "impl < 'a > Ctx < 'a >")
+    if text(fpoll["body"]).replace(" ", "") != "&self.exit_state":
+        raise Undecided("Ctx::poll is no longer `&self.exit_state`: " + text(fpoll["body"]))
+    pre = [
+        Rule("R3", ". with_context ( $$c )", "", why="context text dropped"),
+        Rule("R3", "log :: trace ! $a ;", "", why="logging dropped"),
+        Rule("R9", "# [ cfg ( feature = \"debug\" ) ] let $$s ;", "", why="cfg(feature = \"debug\") is off in the default build: statement not compiled"),
+        Rule("R9", "# [ cfg ( not ( feature = \"debug\" ) ) ]", "", why="cfg(not(feature = \"debug\")): statement compiled in the default build"),
+    ]
+    b = translate(frag, pre, log, "Function::run[step]")
+    b = inline_closures(b, log)
+    rules = [
+        Rule("R3", "bail ! $a", "return Err ( VErr )", why="bail! -> return Err"),
+        Rule("R1", "InstructionExitState :: $v", "Exit :: $v", why="enum renamed in the model"),
+        Rule("R3", "Result < ( ) >", "Result < ( ) , VErr >", why="anyhow::Result"),
+        Rule("R8", "let new_val = ( instruction_ptr as isize + offset ) as usize ;",
+             "let new_val = wrap_usize ( instruction_ptr as isize + offset ) ;", count="+", why="the isize addition is kept (Verus checks it for overflow as the dev profile does); `as usize` of a negative isize wraps modulo 2^64 (Rust cast semantics, assumed)"),
+        Rule("R10", "current_frame . borrow_mut ( ) . pop_until_function ( ) ;", "pop_until_function ( context ) ;", why="Rc<RefCell<Stack>> shared with the context: the call stack is a field of the model context"),
+        Rule("R1", "return Ok ( ret . clone ( ) ) ;", "return Ok ( Step :: Returned ( clone_rv ( ret ) ) ) ;", count=1, why="the step function returns what the loop would: the function's return value, or the next instruction pointer"),
+        Rule("R6", "jump_callback ( jump_request ) ?", "jump_callback_call ( jump_callback , jump_request ) ?", why="jump callback abstract (runs another function / module / library call)"),
+        Rule("R1", "context . add_frame ( Cow :: Borrowed ( ty . identity_str ( ) ) ) ;", "context . add_frame ( scope_label ( ty ) ) ;", why="frame label text"),
+        Rule("R7", "( * offset ) . try_into ( ) ?", "usize_to_isize ( * offset ) ?", why="usize -> isize conversion"),
+        Rule("R2", "for _ in 0 .. * frames_to_pop { $$body }",
+             ["let mut verif_p : usize = 0 ; while verif_p < * frames_to_pop",
+              G("invariant verif_p <= *frames_to_pop, *frames_to_pop <= frame_labels(&old(context).call_stack).len(), "
+                "frame_labels(&context.call_stack) == frame_labels(&old(context).call_stack).subrange(0, frame_labels(&old(context).call_stack).len() - verif_p as int), "
+                "context.stack == old(context).stack, context.exit_state == old(context).exit_state, instruction_ptr as int == goto_target(ptr_in, *offset), special_scopes@ == old(special_scopes)@ "
+                "decreases *frames_to_pop - verif_p"),
+              "{ verif_p += 1 ; $$body }"], why="for over a range -> counted while"),
+        Rule("R9", "loop { let to_call = bridge . wait_for ( ) ? ; let return_value = jump_callback ( & to_call ) ? ; if ! bridge . then ( return_value ) ? { break ; } } if let Some ( final_exit_state ) = bridge . finish ( ) ? { context . push ( final_exit_state ) ; }",
+             "run_bridge ( context , bridge , jump_callback ) ? ;", why="notification bridge protocol abstract (no frame / instruction pointer effect)"),
+        Rule("R1", "special_scopes . push ( * ty ) ;", "special_scopes . push ( copy_scope ( ty ) ) ;", why="SpecialScope is Copy"),
+        Rule("R1", "ref x @ Exit :: GotoPopScope", "Exit :: GotoPopScope", why="binding only used by the trace message"),
+        Rule("R1", "let old_ptr_location = instruction_ptr ;", "", why="only used by the trace message"),
+    ]
+    # the closure was inlined: its parameter is named offset; calls pass `*offset`
+    b = translate(b, rules, log, "Function::run[step]")
+    b = Rule("R11", "continue ;", [G("proof { assert(frame_labels(&old(context).call_stack).subrange(0, frame_labels(&old(context).call_stack).len() as int) =~= frame_labels(&old(context).call_stack)); }"), "continue ;"], why="").apply(b, log)
+    check_closed(b, "Function::run[step]")
+    gen = header(log, f"{FUNC}: Function::run, loop body after `let ret = context.poll();`; {CTXF}: Ctx::clear_signal, Ctx::push") + \
+        prelude("ctx.rs").replace("ReturnValue(Box<Primitive>)", "ReturnValue(ReturnValue), GotoPushScope(usize, SpecialScope)") + \
+        "#[verifier::external_body] pub fn copy_scope(t: &SpecialScope) -> (r: SpecialScope) ensures r == *t { unimplemented!() }\n" + \
+        "#[verifier::external_body] pub fn usize_to_isize(x: usize) -> (r: Result<isize, VErr>) ensures r is Ok ==> r->Ok_0 as int == x as int { unimplemented!() }\n" + \
+        ctx + STEP_SPEC.replace("CLEAR_SIGNAL", render(cs, 0)) + f"""
+// depth of the frame stack after the step, by exit state (what the compile-side layouts assume of the interpreter)
+pub open spec fn frames_after(e: Exit, before: Seq<VString>, scopes_before: Seq<SpecialScope>) -> int {{
+    match e {{
+        Exit::PushScope(_) | Exit::GotoPushScope(_, _) => before.len() as int + 1,
+        Exit::GotoPopScope(_, k) => before.len() - k,
+        Exit::PopScope => if scopes_before.len() > 0 {{ before.len() - 1 }} else {{ before.len() as int }},
+        _ => before.len() as int,
+    }}
+}}
+// the loop goes on with instruction `p1` in context `c1`
+pub open spec fn next_ok(ret: Exit, c0: Ctx, s0: Seq<SpecialScope>, ptr_in: usize, len: usize, cb: &JumpCb, c1: Ctx, p1: usize) -> bool {{
+    // a jump goes exactly to ptr + offset (no extra step) and stays inside the function
+    &&& (ret matches Exit::Goto(off) ==> p1 as int == goto_target(ptr_in, off) && p1 < len)
+    &&& (ret matches Exit::GotoPopScope(off, _) ==> p1 as int == goto_target(ptr_in, off) && p1 < len)
+    // everything else continues with the next instruction
+    &&& ((ret is NoExit || ret is PushScope || ret is PopScope || ret is JumpRequest) ==> p1 as int == ptr_in + 1)
+    // frames: a scope instruction opens exactly one, done closes one, jmp_pop closes exactly the number it names; nothing else touches them
+    &&& frame_labels(&c1.call_stack).len() == frames_after(ret, frame_labels(&c0.call_stack), s0)
+    &&& ((ret is Goto || ret is NoExit || ret is JumpRequest) ==> frame_labels(&c1.call_stack) == frame_labels(&c0.call_stack))
+    // the value of a call (C19: foreign calls included) is pushed
+    &&& (ret matches Exit::JumpRequest(jr) ==> (match cb_result(cb, &jr) {{
+            Ok(ReturnValue::Value(p)) => c1.stack@ == c0.stack@.push(p),
+            Ok(ReturnValue::NoValue) => c1.stack@ == c0.stack@,
+            _ => false,
+        }}))
+    &&& ((ret is Goto || ret is NoExit || ret is PushScope || ret is PopScope || ret is GotoPopScope) ==> c1.stack@ == c0.stack@)
+    &&& !(ret is ReturnValue)
+    // the exit state is consumed
+    &&& c1.exit_state == Exit::NoExit
+}}
+
+//@ OBL C01.run.step
+#[verifier::loop_isolation(false)]
+pub fn run_step(ret: &Exit, context: &mut Ctx, ptr_in: usize, instruction_len: usize, special_scopes: &mut Vec<SpecialScope>, jump_callback: &JumpCb) -> (r: Result<Step, VErr>)
+    requires
+        ptr_in < instruction_len, instruction_len <= isize::MAX,
+        // offsets are those of compiled code: ptr + offset does not overflow isize (a hand-written offset near isize::MAX would
+        // panic in the dev profile: outside what is claimed)
+        (*ret matches Exit::Goto(off) ==> goto_target(ptr_in, off) <= isize::MAX),
+        (*ret matches Exit::GotoPopScope(off, _) ==> goto_target(ptr_in, off) <= isize::MAX),
+        (*ret matches Exit::GotoPushScope(off, _) ==> ptr_in + off <= isize::MAX),
+        // frames a GotoPopScope / PopScope closes exist (compile side: C01.while.layout, C01.scopes_since_loop; Stack::pop panics otherwise)
+        (*ret matches Exit::GotoPopScope(_, k) ==> k <= frame_labels(&old(context).call_stack).len()),
+        (*ret is PopScope && old(special_scopes)@.len() > 0 ==> frame_labels(&old(context).call_stack).len() > 0),
+    ensures
+        (r matches Ok(Step::Next(p1)) ==> next_ok(*ret, *old(context), old(special_scopes)@, ptr_in, instruction_len, jump_callback, *final(context), p1)),
+        // totality: a jump inside the function, a scope instruction or a plain instruction never fails here
+        (*ret matches Exit::Goto(off) ==> (r is Ok <==> 0 <= goto_target(ptr_in, off) < instruction_len)),
+        ((*ret is NoExit || *ret is PushScope || *ret is PopScope) ==> r is Ok),
+        // a failed call / an FFI error is a failure of the caller
+        (*ret matches Exit::JumpRequest(jr) ==> ((cb_result(jump_callback, &jr) is Err || cb_result(jump_callback, &jr) matches Ok(ReturnValue::FFIError(_))) <==> r is Err)),
+        // `ret` ends the function with exactly its value
+        (*ret matches Exit::ReturnValue(v) ==> r is Ok && r->Ok_0 == Step::Returned(v)),
+        (r matches Ok(Step::Returned(_)) ==> *ret is ReturnValue),
+{{
+    let mut instruction_ptr = ptr_in;
+    let mut verif_once = true;
+    while verif_once
+        invariant
+            verif_once ==> (*context == *old(context) && instruction_ptr == ptr_in && special_scopes@ == old(special_scopes)@),
+            !verif_once ==> next_ok(*ret, *old(context), old(special_scopes)@, ptr_in, instruction_len, jump_callback, *context, instruction_ptr),
+        decreases (if verif_once {{ 1int }} else {{ 0int }})
+    {{
+        verif_once = false;
+        VERIF_FRAGMENT
+    }}
+    Ok(Step::Next(instruction_ptr))
+}}
+
+}} // verus!
+fn main() {{}}
+""".replace("VERIF_FRAGMENT", render(b, 2))
+    obls = ctx_obls(names, ["C01"]) + [
+        Obl("CTX.clear_signal", ["C01", "C09"], fn="Ctx::clear_signal", desc="Ctx::clear_signal resets the exit state only"),
+        Obl("C01.run.step", ["C01", "C09", "C19"], fn="run_step",
+            desc="Function::run, one iteration after the handler: Goto jumps to exactly ptr+offset (Err outside the function); PushScope opens one frame, PopScope closes one, GotoPopScope(k) closes exactly k and jumps; a call's value is pushed, an FFI error fails; everything else steps to ptr+1"),
+    ]
+    return gen, obls, log
+
+
+U_STEP = VUnit("c01_run_step", ["C01", "C09", "C19"], "Function::run: what the loop does with each exit state (instruction pointer, frames, call results)", build_step)
+U_STEP.assumes = ["fragment: the loop body of Function::run after `let ret = context.poll();` is verified as a function of (ret, context, instruction_ptr, special_scopes); `ret` is the context's exit state (Ctx::poll is checked to be `&self.exit_state`); the instruction fetch and `query!` dispatch in front of it are not part of the fragment",
+                  "Rc<RefCell<Stack>>: the shared call stack is a field of the model context (single-threaded, no re-entrant borrow)",
+                  "the jump callback and the notification bridge are abstract callees; Stack::extend / pop as push / drop_last of frame labels; pop_until_function abstract",
+                  "cfg(feature = \"debug\") is off (default build)"]
+UNITS = [U_CTRL, U_STEP]
